@@ -695,7 +695,7 @@ class __Class(_pre.Pregex):
         def escape_char(c):
             return "\\" + c if c in __class__._to_escape else c
         def unescape_char(c):
-            return c.replace("\\", "", 1) if len(c) > 1 and c[1] in (*__class__._to_escape, '$') else c
+            return c.replace("\\", "", 1) if len(c) > 1 and not c[1].isalnum() else c
 
         fun = escape_char if escape else unescape_char
         modified_classes = set()
